@@ -788,8 +788,8 @@ class DirectoryRecord:
                     self.children[index].data_continuation = child
                     self.children[index].file_flags |= (1 << self.FILE_FLAG_MULTI_EXTENT_BIT)
                     index += 1
-        self.children.insert(index, child)
 
+        rr_index = -1
         if child.rock_ridge is not None and not child.is_dot() and not child.is_dotdot():
             lo = 0
             hi = len(self.rr_children)
@@ -805,6 +805,16 @@ class DirectoryRecord:
                     raise pycdlibexception.PyCdlibInternalError('Expected all children to have Rock Ridge, but one did not')
             rr_index = lo
 
+            # Relocated directories keep their names inside RR_MOVED, where the
+            # same name may therefore legitimately occur more than once.
+            if check_overflow and self.file_identifier() != b'RR_MOVED' and rr_index < len(self.rr_children) and self.rr_children[rr_index].file_ident != child.file_ident:
+                other_rr = self.rr_children[rr_index].rock_ridge
+                if other_rr is not None and other_rr.name() == child.rock_ridge.name():
+                    raise pycdlibexception.PyCdlibInvalidInput('Failed adding duplicate Rock Ridge name to parent')
+
+        self.children.insert(index, child)
+
+        if rr_index >= 0:
             self.rr_children.insert(rr_index, child)
 
         # We now have to check if we need to add another logical block.
